@@ -658,6 +658,24 @@ def _stable(o, af) -> str:
 from ..selftest import Variant  # noqa: E402
 
 VARIANTS = [
+    Variant(
+        "quiet-r13d-subset-test-through-a-local", BASE,
+        "        if opening_unparsables >= closing_unparsables:\n            return True\n",
+        "        nothing_new = opening_unparsables >= closing_unparsables\n        if nothing_new:\n            return True\n",
+        "QUIET", None, "R13d: subset test held in a boolean local",
+    ),
+    Variant(
+        "quiet-r13d-apply-in-try-else", BASE,
+        "                return False\n            new_segments = rematch.apply(trimmed_content, parse_context=ctx)\n        except SQLParseError as err:\n            # A parse error while re-parsing (e.g. hitting the parse depth or\n            # parse node limits, or unbalanced brackets) means that we cannot\n            # confirm the new segment is valid.\n            linter_logger.debug(f\"Validation Check Fail for {self}. {err.desc()}\")\n            return False\n",
+        "                return False\n        except SQLParseError as err:\n            linter_logger.debug(f\"Validation Check Fail for {self}. {err.desc()}\")\n            return False\n        new_segments = rematch.apply(trimmed_content, parse_context=ctx)\n",
+        "QUIET", None, "R13d: apply moved after the try (same result when it does not raise)",
+    ),
+    Variant(
+        "r13d-subset-local-but-negated", BASE,
+        "        if opening_unparsables >= closing_unparsables:\n            return True\n",
+        "        nothing_new = opening_unparsables >= closing_unparsables\n        if not nothing_new:\n            return True\n",
+        "R13d", "validate_segment_with_reparse", "local spelling, polarity flipped",
+    ),
     # R13d: the re-parse oracle itself
     Variant(
         "r13d-handler-answers-true", BASE,
